@@ -45,6 +45,19 @@ fn render(i: Instant, r: u64) -> String {
             let (y, m, d, h, mi, s) = at(0);
             format!("{:04}{:02}{:02}T{:02}{:02}{:02}.{:09}-0000", y, m, d, h, mi, s, nanos)
         }
+        14 => {
+            // 20 fractional digits (more than fit in 64 bits): digits beyond the ninth are truncated
+            let (y, m, d, h, mi, s) = at(0);
+            format!("{:04}{:02}{:02}T{:02}{:02}{:02}.{:09}99999999999Z", y, m, d, h, mi, s, nanos)
+        }
+        15 => {
+            let (y, m, d, h, mi, s) = at(60);
+            format!("{:04}-{:02}-{:02}T{:02}:{:02}:{:02},{:09}{}+01:00", y, m, d, h, mi, s, nanos, "8".repeat(40))
+        }
+        16 => {
+            let (y, m, d, h, mi, s) = at(0);
+            format!("{:04}{:02}{:02}T{:02}{:02}{:02}.{:09}{}Z", y, m, d, h, mi, s, nanos, "0123456789".repeat(30))
+        }
         _ => {
             let (y, m, d, h, mi, s) = at(0);
             format!("{:04}-{:02}-{:02}T{:02}{:02}{:02}.{:09}Z", y, m, d, h, mi, s, nanos) // mixed: unspecified zone
@@ -155,8 +168,8 @@ pub fn run(ctx: &Ctx) -> Report {
         offsets.push(big * 1_000_000_000);
     }
     let n_serv = if thorough { servers.len() } else { 3 } as u64;
-    let n_rend: u64 = if thorough { 14 } else { 4 };
-    let rend_pick: Vec<u64> = if thorough { (0..14).collect() } else { vec![0, 2, 6, 9] };
+    let n_rend: u64 = if thorough { 17 } else { 6 };
+    let rend_pick: Vec<u64> = if thorough { (0..13).chain(14..17).chain([13]).collect() } else { vec![0, 2, 6, 9, 14, 15] };
     let n_off = offsets.len() as u64;
     // parameters / headers that carry a lifetime in AWS's own protocols (a validity period, an expiry,
     // temporary credentials): none of them widens or narrows the +-15 min window here
@@ -257,7 +270,7 @@ pub fn run(ctx: &Ctx) -> Report {
     Report {
         stats: st,
         rule: format!(
-            "{} server instants (plain, +1 ns, +999999999 ns, leap day, month/year/day boundaries) x {} offsets request-server (every whole second in [-1200 s, +1200 s]; +-1, 2, 1000 ns, 1 ms, 999999999 ns around both bounds; {} millisecond points within +-2 s of both bounds; +-1 h, 1 day, 1 year, 901 s) x {} renderings (basic/extended Z, +05:30, -08:00, +14:00, -12:00, 9/12-digit fractions with '.' and ',', +-00:01, -09:30, +12:45, -0000) x carrier x {} lifetime decorations (none, or X-Amz-Expires = 60 .. 604800 s as a signed query parameter / signed header next to an Expires header) x session token present or not; every request freshly and correctly signed (scope date = UTC date of its instant). Oracle: Ok iff |t - now| <= 900 s at nanosecond resolution; otherwise SignatureDoesNotMatch/403 with an empty provider log; (2) every sequence of 1..3 operations {{prevalidate, validate_signature, validate_signature on a clone}} x 5 server clocks (0, +900, +901, -901, +960 s) on one authenticator object built through the unstable API from a valid request, on both carriers, each operation judged alone. states = (inside, side, stage)",
+            "{} server instants (plain, +1 ns, +999999999 ns, leap day, month/year/day boundaries) x {} offsets request-server (every whole second in [-1200 s, +1200 s]; +-1, 2, 1000 ns, 1 ms, 999999999 ns around both bounds; {} millisecond points within +-2 s of both bounds; +-1 h, 1 day, 1 year, 901 s) x {} renderings (basic/extended Z, +05:30, -08:00, +14:00, -12:00, 9/12-digit fractions with '.' and ',', fractions of 20, 49 and 309 digits, +-00:01, -09:30, +12:45, -0000) x carrier x {} lifetime decorations (none, or X-Amz-Expires = 60 .. 604800 s as a signed query parameter / signed header next to an Expires header) x session token present or not; every request freshly and correctly signed (scope date = UTC date of its instant). Oracle: Ok iff |t - now| <= 900 s at nanosecond resolution; otherwise SignatureDoesNotMatch/403 with an empty provider log; (2) every sequence of 1..3 operations {{prevalidate, validate_signature, validate_signature on a clone}} x 5 server clocks (0, +900, +901, -901, +960 s) on one authenticator object built through the unstable API from a valid request, on both carriers, each operation judged alone. states = (inside, side, stage)",
             n_serv, n_off, if thorough { "all" } else { "every 25th of the" }, n_rend, n_life
         ),
         bounds: json!({"servers": n_serv, "offsets": n_off, "renderings": n_rend}),
